@@ -316,6 +316,11 @@ func cmdCheck(args []string) int {
 
 	workDir := filepath.Join(*verif, "work", *prop)
 	os.RemoveAll(workDir)
+	for _, qq := range qs {
+		if qq.ob != nil && matchKnown(known, *prop, qq.name) != nil {
+			qq.quick = true
+		}
+	}
 	solveAll(qs, workDir, timeout, runtime.NumCPU(), thorough)
 
 	// ---- verdicts ----
